@@ -551,3 +551,49 @@ PROPS["C02"] = {
     "assumptions": ["stack = structural induction over layers (meta-lemma, unchecked)"],
     "not_covered": ["field_view::at variadic/vector overloads", "linear (C03) and affine (C09) layers are decided under their own properties"],
 }
+
+
+# ------------------------------------------------------------------ C03
+def cells_C03(tier, consts):
+    cells = []
+    combos_q = [(1, 1, "float", "float"), (1, 3, "float", "float"), (2, 2, "float", "float"), (2, 1, "float", "float"), (2, 3, "double", "float"),
+                (3, 3, "float", "float"), (3, 1, "float", "double"), (4, 2, "float", "float")]
+    combos_t = combos_q + [(1, 2, "double", "double"), (2, 2, "double", "double"), (3, 2, "double", "float"), (3, 3, "double", "double"),
+                           (4, 4, "float", "float"), (4, 1, "double", "float"), (5, 1, "float", "float")]
+    combos = combos_t if tier == "thorough" else combos_q
+    for n in sorted(set(c[0] for c in combos)):
+        cells.append(Cell("linear.helper.N%d" % n, "linear@N=%d" % n, "h_linear_index_helper",
+                          defines={"DIMS_IN": n, "DIMS_OUT": 1, "IN_SCALAR_T": "float", "OUT_SCALAR_T": "float", "VERIF_TRUNC": "truncf"},
+                          enforce="linear_index_helper", unwind=7, extra_checks=["--unsigned-overflow-check"] if False else [],
+                          closes_loops="loop-free", replay=None))
+    for n, m, cty, sty in combos:
+        d = {"DIMS_IN": n, "DIMS_OUT": m, "IN_SCALAR_T": cty, "OUT_SCALAR_T": sty, "B_IN_SCALAR_T": "size_t",
+             "VERIF_TRUNC": "truncf" if cty == "float" else "trunc"}
+        un = "linear@N=%d" % n
+        uw = (1 << n) + 2 if (1 << n) + 2 > m + 2 else m + 2
+        tmo = 600 if n <= 2 else 1800
+        be = (("sat", tmo), ("cadical", tmo)) if (n <= 2 and cty == "float") else (("cadical", tmo), ("sat", tmo))
+        cells.append(Cell("linear.at.N%d.M%d.%s.%s" % (n, m, cty, sty), un, "h_linear_at", defines=d, enforce="linear_at",
+                          replace=["linear_index_helper"], unwind=uw, backends=be, object_bits=10,
+                          closes_loops="unwinding to the template constants 2^N, N, M (complete)",
+                          note="neighbour set (all coordinates, all data) + lattice exactness (all finite data)", replay="linear"))
+        if tier == "quick" and (n >= 4 or cty == "double"):
+            continue   # the weights cells of the generic branch / double coordinates take 8-12 min: thorough tier
+        cells.append(Cell("linear.weights.N%d.M%d.%s.%s" % (n, m, cty, sty), un, "h_linear_weights", defines=dict(d, VERIF_LIN_WEIGHTS=1), enforce="linear_at",
+                          replace=["linear_index_helper"], unwind=uw, backends=be, object_bits=10,
+                          closes_loops="unwinding to the template constants 2^N, N, M (complete)",
+                          note="exact sub-domain: basis data, fractional parts in {0,1/4,1/2,3/4}, cell index symbolic up to 10^6", replay="linear"))
+    return cells
+
+
+PROPS["C03"] = {
+    "level_text": "linear::at proved, per (N, M, coordinate type, stored type) with N and M independent: (1) exactly the 2^N lattice points surrounding the coordinate are queried, each once, for all coordinates and data; (2) at lattice points the stored value is returned exactly for all finite data; (3) on the exact sub-domain (basis data, fractional parts in {0,1/4,1/2,3/4}) the result is the product of the per-axis weights exactly -- which pins cell choice, neighbour/weight pairing and dimension dispatch",
+    "level_note": "the general statement for arbitrary fractions and data (error bound 'up to rounding', range containment) is NOT decided: symbolic float x float products time out on every installed back end; coordinates limited to [0, 2^23-1]; CBMC's float and trunc models",
+    "design_ref": "DESIGN.md section 5 (C03)",
+    "cells": cells_C03, "consts": False,
+    "explanation": "linear layer extracted and verified against a 2^N-point cell backend stub",
+    "trusted_base": ["CBMC's IEEE-754 model (round to nearest even) and truncf/trunc models", "2^N-point cell stub (contracts/linear.h)"],
+    "assumptions": ["coordinates in [0, 2^23 - 1] (integer part and its successor exactly representable in the coordinate type)",
+                    "lattice values are finite and stay finite when converted to the coordinate precision (a double above FLT_MAX read through float coordinates becomes inf, and 0*inf = NaN)"],
+    "not_covered": ["forward error bound for arbitrary fractional parts and data", "containment in the range of the surrounding values"],
+}
